@@ -22,14 +22,17 @@ CONSTANTS Mode,      \* "small" (exhaustive) or "gen" (behaviour generation)
           Faults     \* gen: some valid writes meet a storage failure
 
 Networks == {"A", "B"}
-KnownNs  == {"n1", "n2"}
+\* n1, n2 carry no configuration; n3 (generation mode) declares r1 and r2 with r2 := r2 or r1 (a computed subject set),
+\* so that checks also go through the rewrite traversal of the storage layer
+KnownNs  == IF Mode = "small" THEN {"n1", "n2"} ELSE {"n1", "n2", "n3"}
 AllNs    == KnownNs \cup {"nope"}
 Objs     == IF Mode = "small" THEN {"o1"} ELSE {"o1", "o2"}
-Rels     == IF Mode = "small" THEN {"r1"} ELSE {"r1", ""}
+Rels     == IF Mode = "small" THEN {"r1"} ELSE {"r1", "", "r2"}
 Subs     == IF Mode = "small"
             THEN {<<"id", "u1">>, <<"set", "n1", "o1", "r1">>}
             ELSE {<<"id", "u1">>, <<"id", "o1">>, <<"set", "n1", "o1", "r1">>, <<"set", "n1", "o1", "">>, <<"set", "n2", "o1", "r1">>,
-                  <<"set", "n2", "o2", "">>, <<"set", "nope", "o2", "r1">>}   \* subject sets that differ in exactly one field
+                  <<"set", "n2", "o2", "">>, <<"set", "nope", "o2", "r1">>,   \* subject sets that differ in exactly one field
+                  <<"set", "n3", "o1", "r2">>}
 NoSub    == <<"none">>
 TupleNs  == IF Mode = "small" THEN {"n1", "nope"} ELSE AllNs
 Tuples   == TupleNs \X Objs \X Rels \X (Subs \cup {NoSub})
@@ -94,7 +97,8 @@ List(n, q) ==
 \* (KetoCheck!RefSem).  Unknown namespaces are "denied", not an error; a
 \* relationship without subject is a malformed request.
 CheckK(n) == LET u == SetToSeq(DOMAIN store[n]) IN
-  [cfg |-> [m \in KnownNs |-> [x \in {} |-> 0]], strict |-> FALSE, U |-> u, S |-> 1..Len(u),
+  [cfg |-> [m \in KnownNs |-> IF m = "n3" THEN [r1 |-> KC!Rel(<<>>, KC!None), r2 |-> KC!Rel(<<>>, KC!Or(<<KC!CSS("r1")>>))]
+                                ELSE [x \in {} |-> 0]], strict |-> FALSE, U |-> u, S |-> 1..Len(u),
    ord |-> [i \in 1..Len(u) |-> i], w |-> 100, vm |-> "scoped", coll |-> TRUE, sc |-> TRUE, fk |-> 0, alias |-> FALSE]
 Allowed(n, t) == t[1] \in KnownNs /\ (t[4][1] = "set" => t[4][2] \in KnownNs) /\ KC!RefSem(CheckK(n), t)
 Check(n, t) ==
@@ -129,10 +133,14 @@ NextSmall ==
 (* history carries, after every step, the reply and both networks' bags.   *)
 (***************************************************************************)
 Pick(S) == {RandomElement(S)}
+\* checks that have a chance of being allowed: a stored node asked for a stored subject, in n3 also through the rewritten relation
+CheckTargets(n) == LET st == DOMAIN store[n] IN
+  IF st = {} THEN Tuples
+  ELSE {<<t[1], t[2], r, u[4]>> : <<t, u, r>> \in {<<t, u, r>> \in st \X st \X Rels : r = t[3] \/ (t[1] = "n3" /\ r = "r2")}}
 Snapshot == [n \in Networks |-> BagList(store'[n])]
 NextGen ==
   /\ steps < NSteps /\ steps' = steps + 1 /\ run' = run
-  /\ \E k \in Pick(1..10), nk \in Pick(1..4), flt \in Pick(1..6) :
+  /\ \E k \in Pick(1..12), nk \in Pick(1..4), flt \in Pick(1..6) :
        LET n == IF nk = 4 THEN "B" ELSE "A"
            fault == Faults /\ flt = 1        \* one write in six meets a failing storage statement
            AllValid(ts) == \A j \in 1..Len(ts) : Valid(ts[j])
@@ -144,7 +152,7 @@ NextGen ==
                                   del == CASE shape = 1 -> <<d1>> [] shape = 2 -> <<>> [] shape = 3 -> <<d1, d2>> [] OTHER -> <<d1>>
                               IN IF fault /\ AllValid(ins) /\ AllValid(del) THEN Failed("transact", n, <<ins, del>>) ELSE Transact(n, ins, del)
          [] k \in {6, 7} -> \E q \in Pick(Queries) : IF fault /\ QValid(q) THEN Failed("deleteq", n, <<q>>) ELSE DeleteQ(n, q)
-         [] k = 8 -> \E t \in Pick(Tuples) : Check(n, t)
+         [] k \in {8, 9} -> \E half \in Pick(1..2) : \E t \in Pick(IF half = 1 THEN Tuples ELSE CheckTargets(n)) : Check(n, t)
          [] OTHER -> \E q \in Pick(Queries) : List(n, q)
   /\ hist' = Append(hist, [op |-> last'.op, nid |-> last'.nid, args |-> last'.args, ok |-> last'.ok,
                            reply |-> last'.reply, after |-> Snapshot])
